@@ -206,6 +206,37 @@ theorem window_bound_all_schedules (cap : CapFn) (calls : List (Call κ)) (sched
 
 end
 
+/-! ### A clock that moves between readings -/
+
+/-- The code's `TryToIncrement` is the ONE-reading instance: using the same reading for the grid window and for
+    the roll-over decision is exactly the model's step. -/
+theorem single_reading (cap : CapFn) (t : Nat) (wd : WindowData) (s : KeyState) :
+    tryInc2 cap t t wd s = tryInc cap t wd s :=
+  tryInc2_single_reading cap t wd s
+
+/-- Bound and exactness for a MOVING clock: let `readings` be the successive values of `Now()` — monotone, with
+    arbitrary increments between them — and let every call take ONE reading for everything (as the code does):
+    each call passes iff its key's grid window (of THAT reading) holds fewer passes than the cap. -/
+theorem bound_moving_clock {κ : Type} [DecidableEq κ] (cap : CapFn) (readings : List Nat)
+    (calls : List (κ × WindowData)) (hmono : readings.Pairwise (· ≤ ·))
+    (hpos : ∀ c ∈ calls, 0 < c.2.W) :
+    holds cap (runL cap [] (stamp readings calls)) = true := by
+  apply spec_holds
+  rw [clean, runL_inputs]
+  simp only [admissible, monotone, posW, Bool.and_eq_true, decide_eq_true_eq, List.all_eq_true]
+  exact ⟨stamp_monotone readings calls hmono, fun r hr => hpos _ (stamp_mem_wd readings calls r hr)⟩
+
+/-- Deciding the roll-over from a SECOND, later reading breaks the bound (seeded change C09-s10): allowed 1 per
+    1 s, window 1000 is used up; a call whose first reading is 1 ns before the boundary computes the window end
+    1001 s from it, decides "window over" from the second reading (exactly 1001 s), resets the counter and passes:
+    two passes attributed to grid window 1000. -/
+theorem second_reading_violation_witness :
+    ∃ rs : List (Req Unit × Nat), (rs.map (·.1.t)).Pairwise (· ≤ ·) ∧
+      (runK2 capExact initKey rs).map (·.pass) = [true, true] ∧
+      passesInWin 1000000000 1000 (runK2 capExact initKey rs) = 2 ∧
+      holdsKeyRev capExact (runK2 capExact initKey rs).reverse = false := by
+  refine ⟨[(⟨(), 1000500000000, wd1 1 1⟩, 0), (⟨(), 1000999999999, wd1 1 1⟩, 1)], ?_, ?_, ?_, ?_⟩ <;> decide
+
 /-! ### The cap the code computes is the exact share (fix F09b) -/
 
 /-- `scaledCeil` (integers, ratio in units of 1e-8) is exactly "(allowed + spill-over) × percentage, rounded up"
@@ -420,6 +451,13 @@ example :
     capUnits 100 (.pct 7 1) = 7 ∧ clean (runL capUnits [] rs) = true ∧
     (runL capUnits [] rs).map (·.pass) = [true, true, true, true, true, true, true, false, false] ∧
     holds capExact (runL capUnits [] rs) = true := by
+  decide
+
+/-- `bound_moving_clock`: the same two calls as in `second_reading_violation_witness`, but with ONE reading each
+    (whatever the clock does afterwards): the call just before the boundary is rejected. -/
+example :
+    (runL capExact [] (stamp [1000500000000, 1000999999999, 1001000000001]
+        [((), wd1 1 1), ((), wd1 1 1), ((), wd1 1 1)])).map (·.pass) = [true, false, true] := by
   decide
 
 /-- the former F09f witness (allowed 2 per 1 s; spill-over collected while enabled, then the remedy is
